@@ -232,6 +232,41 @@ def skeleton(spec, cap):
     return idx, "#".join(recs), empties
 
 
+def fold_line(spec):
+    """`R S H` for the proven grouping check foldedB (Driver/Folded.lean): the rule set with every equivalence path replaced by
+    its constituent rules (R), the rule set as it stands (S), the classes only R has on a left-hand side (H); None when the
+    specification has no equivalence path"""
+    from comb_spec_searcher.strategies.rule import EquivalencePathRule
+
+    idx = {}
+
+    def ci(c):
+        if c not in idx:
+            idx[c] = len(idx)
+        return idx[c]
+
+    def rec(r):
+        return (ci(r.comb_class), tuple(ci(ch) for ch in r.children), tuple(r.shifts()))
+
+    R, S, paths = [], [], 0
+    for cc, rule in list(spec.rules_dict.items()):
+        S.append(rec(rule))
+        if isinstance(rule, EquivalencePathRule):
+            paths += 1
+            R.extend(rec(r) for r in rule.rules)
+        else:
+            R.append(rec(rule))
+    if not paths:
+        return None
+    heads = {p for p, _, _ in S}
+    hidden = sorted({p for p, _, _ in R} - heads)
+
+    def show(rs):
+        return "|".join(f"{p}:{','.join(map(str, cs))}:{','.join(map(str, ss))}" for p, cs, ss in rs) or "-"
+
+    return f"{show(R)} {show(S)} {','.join(map(str, hidden)) or '-'}"
+
+
 def spec_line(spec, N, cap):
     idx, sk, empties = skeleton(spec, cap)
     return idx, f"{len(idx)} {N} {cap} {idx[spec.root]} {','.join(map(str, empties)) or '-'} {sk}"
